@@ -201,7 +201,8 @@ def StableSl (Ct : Cert) (id : Int) (sl : List Kind) : Prop :=
 /-- the suspended activations below a frame whose return address is `r` -/
 def Susp (S : SC) (Ct : Cert) (d : Array (Block Scope)) (vs : Array V) : Int → List (Int × Scope) → Prop
   | _, [] => True
-  | r, (j, sc) :: rest => ∃ a2, ann2At Ct (r + 1) = some a2 ∧ idOf S a2.fn = some sc.id ∧ StableSl Ct sc.id a2.sl ∧
+  | r, (j, sc) :: rest => ∃ a2, ann2At Ct (r + 1) = some a2 ∧ idOf S a2.fn = some sc.id ∧
+      (StableSl Ct sc.id a2.sl ∧ ∀ (n : Nat) (k : Kind), a2.ks[n]? = some k → k = .any) ∧
       SlotCl S Ct d vs j sc a2.sl ∧ Susp S Ct d vs sc.pc rest
 
 /-- the current activation -/
@@ -229,9 +230,13 @@ structure EntryConf2 (S : SC) (Ct : Cert) (l : L) (e : Env) (A : AView) (idt : I
   outer : Good S Ct e.scopes.data e.values
     (.v idt (match blockAt e.scopes.data l.index with | some sc => effOuter sc l.index idt | none => l.index))
   olt : l.index ≤ Rg e.scopes
+  /-- the outer frame lies at or below the frame the new frame returns to -/
+  ole : (0 ≤ l.callpc → (match blockAt e.scopes.data l.index with | some sc => effOuter sc l.index idt | none => l.index) ≤ e.scopes.index) ∧
+    (l.callpc = -1 → ∀ j sc rest, A.frames = (j, sc) :: rest →
+      (match blockAt e.scopes.data l.index with | some sc => effOuter sc l.index idt | none => l.index) ≤ sc.saveindex)
   args : ∀ n : Nat, n < nargs → ∃ p, A.stk[n + 1]? = some p ∧ Good S Ct e.scopes.data e.values (.g .clo p.2 e.scopes.index)
   susp : (0 ≤ l.callpc ∧ Susp S Ct e.scopes.data e.values l.callpc A.frames) ∨
-    (l.callpc = -1 ∧ ∃ j sc rest, A.frames = (j, sc) :: rest ∧ Susp S Ct e.scopes.data e.values sc.pc rest)
+    (l.callpc = -1 ∧ nargs = 0 ∧ ∃ j sc rest, A.frames = (j, sc) :: rest ∧ Susp S Ct e.scopes.data e.values sc.pc rest)
 
 def NMode2 (S : SC) (Ct : Cert) (l : L) (e : Env) (A : AView) : Prop :=
   ∃ a2 ins, ann2At Ct l.pc = some a2 ∧ codeAt S l.pc = some ins ∧
